@@ -615,3 +615,100 @@ pub proof fn lemma_pblocks_frame(o1: Seq<u8>, o2: Seq<u8>, start: int, vals: Seq
     reveal(pblocks);
     if w == 2 { lemma_blocks2_frame(o1, o2, start, vals, n); } else { lemma_blocks32_frame(o1, o2, start, vals, n); }
 }
+// ---- second pass, tags: the strings of one "#L": [ ... ] member re-read from the recorded letter position ----
+#[verifier::opaque]
+pub open spec fn tarr_cont(s: Seq<u8>, c: int, started: bool, ff: int, vs: Seq<Seq<u8>>, n: int) -> bool {
+    let t = jf_land(s, c, started);
+    let e2 = ws_end(s, c);
+    &&& 0 <= t < s.len() && 0 <= n <= vs.len()
+    &&& started ==> (0 <= e2 < s.len() && (s[e2] == 0x2C || s[e2] == 0x5D))
+    &&& if s[t] == 0x5D && (!started || t == e2) { n == vs.len() && ff == t + 1 } else { jtag_from(s, t) == Some((ff, vs.skip(n))) }
+}
+pub proof fn lemma_tarr_land(s: Seq<u8>, c: int, started: bool, ff: int, vs: Seq<Seq<u8>>, n: int, r: int)
+    requires tarr_cont(s, c, started, ff, vs, n), 0 <= c <= r <= s.len(),
+        forall|i: int| c <= i < r ==> is_wsc(#[trigger] s[i]), r < s.len() ==> !is_wsc(s[r]),
+    ensures r == jf_land(s, c, started)
+{
+    reveal(tarr_cont);
+    let t = jf_land(s, c, started);
+    lemma_ws_end(s, c);
+    let e2 = ws_end(s, c);
+    if started && s[e2] == 0x2C { lemma_ws_end(s, e2 + 1); }
+    if jtag_from(s, t) is Some { lemma_jtag_from_step(s, t); }
+    lemma_wsc_unique(s, c, r, t);
+}
+// cursor just after the "[" of a tag member whose strings are jtag(s, ws_end(s, a))
+pub proof fn lemma_tarr_start(s: Seq<u8>, a: int)
+    requires 0 <= a <= s.len(), jtag(s, ws_end(s, a)) is Some
+    ensures tarr_cont(s, a, false, jtag(s, ws_end(s, a))->Some_0.0, jtag(s, ws_end(s, a))->Some_0.1, 0)
+{
+    reveal(tarr_cont);
+    let q = ws_end(s, a);
+    lemma_ws_end(s, a);
+    let vs = jtag(s, q)->Some_0.1;
+    assert(vs.skip(0) =~= vs);
+    if !(q < s.len() && s[q] == 0x5D) { lemma_jtag_from_step(s, q); lemma_jstr_bounds(s, q); }
+}
+pub proof fn lemma_tarr_end(s: Seq<u8>, c: int, started: bool, ff: int, vs: Seq<Seq<u8>>, n: int)
+    requires tarr_cont(s, c, started, ff, vs, n), s[jf_land(s, c, started)] == 0x5D
+    ensures n == vs.len()
+{
+    reveal(tarr_cont);
+    let t = jf_land(s, c, started);
+    if !(!started || t == ws_end(s, c)) {
+        if jtag_from(s, t) is Some { lemma_jtag_from_step(s, t); }
+    }
+}
+pub proof fn lemma_tarr_next(s: Seq<u8>, c: int, started: bool, ff: int, vs: Seq<Seq<u8>>, n: int)
+    requires tarr_cont(s, c, started, ff, vs, n), s[jf_land(s, c, started)] != 0x5D
+    ensures jstr(s, jf_land(s, c, started)) is Some, n < vs.len(), vs[n] == jstr(s, jf_land(s, c, started))->Some_0.1,
+        tarr_cont(s, jstr(s, jf_land(s, c, started))->Some_0.0, true, ff, vs, n + 1),
+{
+    reveal(tarr_cont);
+    let t = jf_land(s, c, started);
+    let rest = vs.skip(n);
+    lemma_jtag_from_step(s, t);
+    lemma_jstr_bounds(s, t);
+    let e = jstr(s, t)->Some_0.0;
+    let v0 = jstr(s, t)->Some_0.1;
+    let e2 = ws_end(s, e);
+    lemma_ws_end(s, e);
+    if s[e2] == 0x2C {
+        let p2 = ws_end(s, e2 + 1);
+        lemma_ws_end(s, e2 + 1);
+        let r2 = jtag_from(s, p2)->Some_0.1;
+        assert(rest =~= seq![v0] + r2);
+        assert(rest[0] == v0);
+        assert(rest.skip(1) =~= r2);
+        assert(vs.skip(n + 1) =~= rest.skip(1));
+        lemma_jtag_from_step(s, p2);
+    } else {
+        assert(rest =~= seq![v0]);
+        assert(rest[0] == v0);
+    }
+}
+// tag j of the section at `base` is complete and holds exactly the strings of `tag`
+pub open spec fn ftag_holds(out: Seq<u8>, base: int, j: int, n: int, limit: int, tag: Seq<Seq<u8>>) -> bool {
+    let off = base + u16_at(out, base + 4 + 2 * j);
+    &&& ftag_done(out, base, j, n, limit)
+    &&& u16_at(out, off) == tag.len()
+    &&& forall|k: int| 0 <= k < tag.len() ==> #[trigger] str_at(out, off + 2, k) == tag[k]
+}
+pub proof fn lemma_ftag_holds_frame(b: Seq<u8>, b2: Seq<u8>, base: int, j: int, n: int, limit: int, tag: Seq<Seq<u8>>)
+    requires ftag_holds(b, base, j, n, limit, tag), limit <= b.len(), b2.len() == b.len(), 0 <= j < n, 0 <= base,
+        forall|i: int| ((base + 4 + 2 * j <= i < base + 4 + 2 * j + 2)
+            || (base + u16_at(b, base + 4 + 2 * j) <= i < so(b, base + u16_at(b, base + 4 + 2 * j) + 2, u16_at(b, base + u16_at(b, base + 4 + 2 * j))))) ==> #[trigger] b2[i] == b[i],
+    ensures ftag_holds(b2, base, j, n, limit, tag)
+{
+    lemma_ftag_done_frame(b, b2, base, j, n, limit);
+    let slot = base + 4 + 2 * j;
+    assert(b2.subrange(slot, slot + 2) =~= b.subrange(slot, slot + 2));
+    let off = base + u16_at(b, slot);
+    let ns = u16_at(b, off);
+    lemma_so_mono(b, off + 2, 0, ns);
+    assert(b2.subrange(off, off + 2) =~= b.subrange(off, off + 2));
+    lemma_str_at_frame(b, b2, off + 2, ns);
+    assert forall|k: int| 0 <= k < tag.len() implies #[trigger] str_at(b2, off + 2, k) == tag[k] by {
+        assert(str_at(b, off + 2, k) == tag[k]);
+    }
+}
